@@ -222,3 +222,37 @@ def pos_class(ra, dec):
     if dec == 0.0 or ra % 90.0 == 0.0:
         return "octant_edge"
     return "interior"
+
+
+# ---- "star" concretisation: arcs measured from an arbitrary centre along rays ------------------
+def star_point(ra0, dec0, phi, pos, eps):
+    """the point t = a + b*eps degrees away from (ra0, dec0) along the great circle that leaves the centre
+    with position angle phi (degrees, from north through east).  The separation from the centre is t (or
+    360 - t beyond the antipode) whatever the centre and the direction are - which is all the cover and
+    the one-to-many pair-count clauses use - so the centre may be ANY position, lattice or not.
+    Rounding of the result to doubles: <= 3e-14 degree."""
+    t = gc_arc(pos, eps)
+    tr = (_LD(t.numerator) / _LD(t.denominator)) * _D2R
+    a0, d0, ph = _LD(ra0) * _D2R, _LD(dec0) * _D2R, _LD(phi) * _D2R
+    c = (np.cos(d0) * np.cos(a0), np.cos(d0) * np.sin(a0), np.sin(d0))
+    north = (-np.sin(d0) * np.cos(a0), -np.sin(d0) * np.sin(a0), np.cos(d0))
+    east = (-np.sin(a0), np.cos(a0), _LD(0))
+    tv = [np.cos(ph) * north[k] + np.sin(ph) * east[k] for k in range(3)]
+    p = [c[k] * np.cos(tr) + tv[k] * np.sin(tr) for k in range(3)]
+    if t == 0:
+        return float(ra0), float(dec0)
+    ra = np.arctan2(p[1], p[0]) * _R2D
+    if ra < 0:
+        ra += 360
+    z = max(_LD(-1), min(_LD(1), p[2]))
+    # near the poles asin loses digits: use atan2 of z against the horizontal length
+    dec = np.arctan2(z, np.sqrt(p[0] * p[0] + p[1] * p[1])) * _R2D
+    ra = float(ra)
+    if ra >= 360.0:
+        ra = 0.0
+    return ra, float(dec)
+
+
+def star_points(centre, dirs, pts, eps):
+    cc = [star_point(centre[0], centre[1], ph, p, eps) for ph, p in zip(dirs, pts)]
+    return [c[0] for c in cc], [c[1] for c in cc]
